@@ -67,6 +67,10 @@ def main():
                 print(log)
             elif broken or st != "OK":
                 print("\n".join(log.splitlines()[:12]))
+    # the per-worker build directories of the C15 witness crate are large and cheap to rebuild
+    for d in os.listdir(os.path.join(VERIF, ".cache")):
+        if d.startswith("target-w") and d.endswith("-witness"):
+            shutil.rmtree(os.path.join(VERIF, ".cache", d), ignore_errors=True)
     return 0
 
 if __name__ == "__main__":
